@@ -17,8 +17,8 @@ RULE = ('random lenses with infinite object + angular fields or finite object + 
         'counts, real and virtual exit pupils, air and immersed image space, focused and defocused image planes; '
         'non-trivial = peak |W| >= 0.01 waves (an unaberrated case cannot distinguish reference spheres) with >= 6 '
         'finite samples; distinct = distinct case hash')
-TIERS = {'quick': dict(shards=6, cases=40), 'thorough': dict(shards=16, cases=1200)}
-MIN_NONTRIVIAL = {'quick': 80, 'thorough': 1500}
+TIERS = {'quick': dict(shards=8, cases=90), 'thorough': dict(shards=16, cases=2000)}
+MIN_NONTRIVIAL = {'quick': 250, 'thorough': 3000}
 MIN_EVALS = {'opd-vs-reference-sphere': 80, 'chief-ray-zero': 80, 'opd-rms': 15, 'opd-fan': 15,
              'rms-wavefront-vs-field': 8, 'opd-difference-operand': 15}
 ASSUMPTIONS = ['exit pupil position from the independent ABCD oracle; rays from the public tracer',
@@ -32,7 +32,7 @@ ANCHORS = [('optiland.wavefront', 'Wavefront._trace_chief_ray'), ('optiland.wave
            ('optiland.wavefront', 'OPD.rms'), ('optiland.wavefront', 'OPDFan.__init__'),
            ('optiland.analysis.rms_vs_field', 'RmsWavefrontErrorVsField._rms_wavefront_error'),
            ('optiland.optimization.operand.ray', 'RayOperand.OPD_difference')]
-DISTS = ['hexapolar', 'uniform', 'cross', 'ring', 'line_x', 'line_y', 'random-seeded']
+DISTS = ['hexapolar', 'uniform', 'cross', 'ring', 'line_x', 'line_y', 'random-seeded', 'random']
 
 
 def gen_case(rng, tier, i):
@@ -42,7 +42,21 @@ def gen_case(rng, tier, i):
               finite_p=(1.0 if finite else 0.0), field_types=(('object_height',) if finite else ('angle',)),
               neg_power_p=0.0, immersed_p=0.12, mirrors_p=(0.25 if rng.random() < 0.15 else 0.0),
               stop=str(rng.choice(['first', 'interior', 'last', 'any'])), max_field_deg=8.0, obj_medium_p=0.15)
+    kw['nwl'] = (1, 3)
     spec, info = L.gen_axial(rng, **kw)
+    if rng.random() < 0.15 and spec['surfaces'][-2].get('medium') != 'mirror':
+        # dispersive, non-air image space (catalogue glass on both sides of the image surface)
+        g = L.GLASSES[int(rng.integers(len(L.GLASSES)))]
+        med = {'glass': g[0], 'ref': g[1]}
+        spec['surfaces'][-2]['medium'] = dict(med)
+        spec['surfaces'][-1]['medium'] = dict(med)
+        P_ = L.psys(spec)
+        ya_, ua_ = P_.marginal(L.epd_of(spec, P_))
+        if abs(float(ua_[-2])) > 1e-9:
+            bfd = -float(ya_[-2]) / float(ua_[-2])
+            if bfd > 0:
+                spec['surfaces'][-2]['t'] = bfd
+        info['dispersive_image_space'] = True
     for s_ in spec['surfaces']:
         if s_.get('type') == 'even_asphere' and s_.get('coeffs'):
             s_['coeffs'][0] = 0.0        # r^2 term: C04 finding (library exit pupil differs from ABCD); not re-litigated here
@@ -135,6 +149,8 @@ def check_case(case, rec):
     n_prev = float(np.ravel(lens.surface_group.surfaces[-1].material_pre.n(wl))[0])
     n_obj = float(np.ravel(lens.surface_group.surfaces[0].material_post.n(wl))[0])
     immersed = abs(n_prev - 1.0) > 1e-12
+    if case['info'].get('dispersive_image_space'):
+        rec.cls('image-space-dispersive-glass' + ('-nonprimary-wavelength' if wl != L.primary_wavelength(spec) else ''))
     P = L.psys(spec)
     xpl = float(P.XPL_from_image())
     rec.cls(f'kind-{kind}', f"dist-{case['dist']}", 'object-infinite' if spec['obj_t'] == 'inf' else 'object-finite',
@@ -178,15 +194,7 @@ def check_case(case, rec):
                         r = float(np.nanmax(e)) if np.isfinite(e).any() else 0.0
                         W = np.where(ep <= em, Wa, Wb)
                         break
-        # as-built model of a known mechanism: the path from the image back to the sphere is subtracted geometrically
-        # (not multiplied by the image-space index)
-        key = None
-        if r > 1 and immersed:
-            ora2, _, _ = oracle_W(spec, lens2, Hy, wl, px, py, 1.0, n_obj)
-            r2 = min(float(np.max(np.abs(W2[np.isfinite(W2) & np.isfinite(W_lib)] - W_lib[np.isfinite(W2) & np.isfinite(W_lib)])
-                                  / (1e-6 + 1e-9 * np.abs(W2[np.isfinite(W2) & np.isfinite(W_lib)])))) if np.isfinite(W2).any() else 0.0
-                     for (W2, _, _, _, _) in ora2.values())
-            key = f'{clause}:opd-image-space-index' if r2 <= 1 else f'{clause}:unexplained'
+        key = None      # (the image-space-index defect was repaired: no as-built model, a regression is a plain violation)
         fin = np.isfinite(W)
         peak = float(np.max(np.abs(W[fin]))) if fin.any() else 0.0
         rec.check(clause, r <= 1, key=key, resid=r, tol=1.0,
@@ -200,9 +208,14 @@ def check_case(case, rec):
         return W
 
     if kind == 'wavefront':
-        d = make_dist(case['dist'], case['n'], case['seed'])
-        px, py = np.array(d.x, float).copy(), np.array(d.y, float).copy()
-        wf = Wavefront(lens, fields=[(0.0, Hy)], wavelengths=[wl], num_rays=case['n'], distribution=d)
+        if case['dist'] == 'random':
+            # unseeded named distribution: the documented samples are the ones the object exposes afterwards
+            wf = Wavefront(lens, fields=[(0.0, Hy)], wavelengths=[wl], num_rays=case['n'], distribution='random')
+            px, py = np.array(wf.distribution.x, float).copy(), np.array(wf.distribution.y, float).copy()
+        else:
+            d = make_dist(case['dist'], case['n'], case['seed'])
+            px, py = np.array(d.x, float).copy(), np.array(d.y, float).copy()
+            wf = Wavefront(lens, fields=[(0.0, Hy)], wavelengths=[wl], num_rays=case['n'], distribution=d)
         W = compare('opd-vs-reference-sphere', wf.data[0][0][0], px, py)
         # chief ray: exactly zero
         d0 = make_dist('ring', 1, 0)
@@ -243,10 +256,14 @@ def check_case(case, rec):
             rec.cls('pupil-has-lost-rays-rms-skipped')
             return
         g = got.reshape(nf, -1)[:, 0]
+        sane = np.max(want, axis=1) < 1000      # grossly aberrated field points mix sphere roots per ray (see above)
+        if not sane.all():
+            rec.cls('grossly-aberrated-field-points-skipped')
+        if not sane.any():
+            return
+        g, want = g[sane], want[sane]
         r = min(float(np.max(np.abs(g - want[:, j]) / (1e-6 + 1e-9 * np.abs(want[:, j])))) for j in range(2))
         key = None
-        if r > 1 and immersed:
-            key = 'rms-wavefront-vs-field:opd-image-space-index'
         rec.check('rms-wavefront-vs-field', r <= 1, key=key, resid=r, tol=1.0,
                   msg=f'RMS wavefront error vs field {g} differs from the recomputed {want[:, 0]} / {want[:, 1]}')
         if float(np.max(want)) >= 0.01:
@@ -266,8 +283,11 @@ def check_case(case, rec):
         if not np.all(np.isfinite(wants)):
             rec.cls('pupil-has-lost-rays-rms-skipped')
             return
+        if max(wants) >= 1000:
+            rec.cls('grossly-aberrated-operand-skipped')
+            return
         r = min(abs(got - w) / (1e-6 + 1e-9 * abs(w)) for w in wants)
-        key = 'opd-difference-operand:opd-image-space-index' if (r > 1 and immersed) else None
+        key = None
         rec.check('opd-difference-operand', r <= 1, key=key, resid=r, tol=1.0,
                   msg=f'RayOperand.OPD_difference {got!r} vs the documented weighted mean on Gaussian-quadrature samples {wants}')
         if max(wants) >= 0.01:
